@@ -203,3 +203,18 @@ pub fn read_util_alignment(src: Source, refs: Option<noodles_fasta::Repository>,
     }
     Ok(())
 }
+
+/// The noodles-util facade writer: header, records, `finish(&header)` — the only finishing call it
+/// offers.
+pub fn write_util_alignment<W: Write>(w: W, p: &Parsed, format: noodles_util::alignment::io::Format, bgzf: bool) -> io::Result<()> {
+    use noodles_util::alignment::io::{CompressionMethod, writer::Builder};
+    let mut w = Builder::default()
+        .set_format(format)
+        .set_compression_method(if bgzf { Some(CompressionMethod::Bgzf) } else { None })
+        .build_from_writer(w)?;
+    w.write_header(&p.header)?;
+    for r in &p.records {
+        w.write_record(&p.header, r)?;
+    }
+    w.finish(&p.header)
+}
